@@ -13,6 +13,17 @@ CHECKS = {
         'written out); harness/c18.py. Axiom-free (Print Assumptions: closed). Aliasing of returned views and slice steps are not modelled.',
    tech='Rocq proof: refinement to list spec by induction + model/implementation correspondence', ref='DESIGN.md section 6 (C18)'),
 }
+CHECKS['C08'] = dict(
+   text='Machine-checked theorems (Coq 8.16, exact rationals) about the split_candle / candle_includes_price / gap-normalisation code REGENERATED from '
+        '/repo on every run by a fail-closed Python-AST translator: totality and validity of the split on the whole range, the later half walks '
+        'exactly the rest of the open-low-high-close (or open-high-low-close) path from the first touch of the split price, the candidate the match '
+        'loop fills next is one the path touches first, and every terminating run of the match loop - for an arbitrary reaction of the strategy layer '
+        'to fills - fills at the order price inside the remaining path and leaves no active order inside what remains. A source change alters the '
+        'generated definitions and breaks the proof; Coq monitors evaluated on the implementation outputs then produce the concrete replay.',
+   note='Trusted: Coq kernel + vm_compute; translator py2v (re-validated bit-for-bit against the Python functions on every run); hand-written Model/Match.v '
+        '(match loop, stable sorts) tied by correspondence with _sort_execution_orders; harness/c08.py. Axiom-free. Theorems are over exact rationals '
+        '(the code only compares/copies prices).',
+   tech='Rocq proof over source-regenerated kernels + match-loop model; translation validation; monitors on implementation outputs', ref='DESIGN.md section 6 (C08)')
 NA = {}
 def main():
     props = [json.loads(l)['id'] for l in open(f'{V}/properties.jsonl')]
